@@ -9,7 +9,7 @@ import (
 	"verif/internal/qset"
 )
 
-const ruleQ = "the C03 queue-set harness with a stop request (TaskQueueSet.Stop) at a generated point of the run: queues idle and empty, inside a handler, inside a (long) back-off wait after a failure, from the AfterHandle callback of a result (handler returned, next task not picked yet); tasks keep arriving after the request; oracle: starts after the request per queue <= 0 (queue was in a handler or in back-off) or <= 1 (idle queue may pick one task that arrives around the request), every worker reaches status stop once its handler returned, nothing starts afterwards, a queue created and started after the request terminates without running its task, WaitStopWithTimeout returns. Non-trivial: stop requested while some queue is non-empty."
+const ruleQ = "the C03 queue-set harness with a stop request (TaskQueueSet.Stop, or the end of the context the operator was created with: cancelled, or its deadline passed) at a generated point of the run: queues idle and empty, inside a handler, inside a (long) back-off wait after a failure, from the AfterHandle callback of a result (handler returned, next task not picked yet); tasks keep arriving after the request; oracle: starts after the request per queue <= 0 (queue was in a handler or in back-off) or <= 1 (idle queue may pick one task that arrives around the request), every worker reaches status stop once its handler returned, nothing starts afterwards, a queue created and started after the request terminates without running its task, WaitStopWithTimeout returns. Non-trivial: stop requested while some queue is non-empty."
 
 func TestQueueStop(t *testing.T) {
 	ev.Main(t, ev.Spec[qset.Case]{Property: "C17", Part: "queue", Rule: ruleQ, Gen: func(t *rapid.T) qset.Case { return qset.Gen(t, true) }, Run: qset.Run, Journal: true})
